@@ -28,9 +28,9 @@ CHECKS = {
             "Trusted: numpy.einsum rotation of test tensors in the harness; Q(sqrt d) arithmetic of QuadField.tla; the degenerate eigenspace is covered by three splits, not all.",
             "DESIGN.md section 4 C03"),
     "C04": ("model_checking",
-            "TLC model checking of the work-list scheduler (spec/TaskScheduler.tla on instances exported from ShearSolver via SchedInstance.tla): all requests up to a bound, every pop order, three strain scenarios; trace validation of hook-recorded runs (Trace_Sched.tla); replay of TLC-simulated request sequences",
-            "Design-level: Final/acyclic/DepsFirst/NoStuck/Complete/termination checked exhaustively for <=2 (quick) / <=3 (thorough) requested keys of a 9-key pool covering all key classes under ANY pop order, plus the isotropic-limit theorem. Implementation-level: every recorded resolve/calculate/get run is validated step by step against the faithful bag model (queue lengths, dedup decisions, edges, evaluation order, isothermal-only reads), and request independence / isotropy / axis covariance are checked on the numbers for simulated request sequences incl. the full 21-key request.",
-            "Trusted: projection of real task parameters onto specification task ids by strain values (cv/schedtrace.py); runs whose projection is not injective (ordered vs unordered off-diagonal pairs) are skipped for trace validation and counted in the evidence. Bounds: MaxReq 2/3 on a 9-key pool for exhaustive exploration.",
+            "TLC model checking of the work-list scheduler (spec/TaskScheduler.tla on instances exported from ShearSolver via SchedInstance.tla): all requests up to a bound, every pop order, three strain scenarios (+ two more equal-pair scenarios for recorded real-data runs), a closure-level model of all 2^21 request sets (SchedCoarse.tla, thorough); trace validation of hook-recorded runs incl. the shipped example (Trace_Sched.tla); replay of TLC-simulated request sequences",
+            "Design-level: Final/acyclic/DepsFirst/NoStuck/Complete/termination checked exhaustively for <=2 (quick) / <=3 (thorough) requested keys of a 9-key pool covering all key classes under ANY pop order, plus the isotropic-limit theorem. Implementation-level: every recorded resolve/calculate/get run is validated step by step against the faithful bag model (queue lengths, dedup decisions, edges, evaluation order, isothermal-only reads), and request independence / isotropy / axis covariance are checked on the numbers for simulated request sequences incl. the full 21-key request, on fresh and on re-used task lists, for well-separated, equal and nearly-equal (3e-4) strain fractions, and for the scheduler run of the shipped akimotoite calculation.",
+            "Trusted: projection of real task parameters onto specification task ids by strain values (cv/schedtrace.py); task ids are ordered pairs under the eigen-solver's axis convention (PosOf); a run whose tasks fall outside the specification's universe (another valid axis order in a degenerate eigenspace) is skipped for trace validation, counted in the evidence and still checked numerically. Bounds: MaxReq 2/3 on a 9-key pool for exhaustive exploration of the fine model.",
             "DESIGN.md section 4 C04"),
     "C08": ("model_checking",
             "TLC decides equality of the relation subspace and the Laue-invariant subspace for the nine systems exactly (group closure, action on the 21-dim tensor space, Reynolds projector, rational null space; spec/Symmetry.tla, Fill.tla, LinAlg.tla, C08.tla) on relations regenerated from /repo; fill replay on TLC-computed invariant tensors",
@@ -49,13 +49,13 @@ CHECKS = {
             "DESIGN.md section 4 C16"),
     "C05": ("model_checking",
             "TLC model of the calculation pipeline with provenance sets (spec/Pipeline.tla: non-interference invariants, exported dependency relation) composed with the TLC-derived value specification of C01-C04 (Thermo normal forms, SchedInstance target terms); end-to-end replay of Calculator on in-class synthetic file triples + taint conformance",
-            "Every isothermal/adiabatic modulus at every grid point of end-to-end runs on synthetic file triples (nine systems with invariant tensor fields and sufficient column subsets; free component sets with mixed shear keys; with/without lattice block) equals static(model function of the files) + phonon(TLC-derived) to 2e-6 (observed 2e-9); the provenance relation of the pipeline model is checked by perturbing one input class at a time.",
-            "Trusted: QHA/numpy.polyfit/scipy interpolators as dependencies (P_total, C_V, static pressure taken from the running object, as the property names them inputs); data sets are in the class on which the interpolators are exact; strain fractions compared within the sampled volume range (1e-2).",
+            "Every isothermal/adiabatic modulus at every grid point of end-to-end runs on synthetic file triples (nine systems with invariant tensor fields and sufficient column subsets; free component sets with mixed shear keys; with/without lattice block) equals static(model function of the files) + phonon(TLC-derived) to 2e-6 (observed 2e-9); a third of the data sets are NOT power laws and use interpolation orders different from the QHA order: there the expected spectrum is an independent call of the interpolation routine with the configured method and order (wiring of the settings); column labels in every spelling; 4-row static tables; the provenance relation of the pipeline model is checked by perturbing one input class at a time and the stage order of real runs is validated by Trace_Pipeline.tla.",
+            "Trusted: QHA/numpy.polyfit/scipy interpolators as dependencies (P_total, C_V, static pressure taken from the running object, as the property names them inputs); two thirds of the data sets are in the class on which the interpolators are exact, for the rest cij.core.mode_gamma.interpolate_modes (C11's subject) supplies the spectrum; strain fractions compared within the sampled volume range (1e-2).",
             "DESIGN.md section 4 C05"),
     "C06": ("model_checking",
             "TLC-enumerated rejection decision (spec/V2P.tla state machine over integer grids) replayed on synthetic EoS; every (quantity, temperature) isotherm of real runs validated as NDJSON records against the conversion relations by Trace_V2P.tla",
-            "Each pressure-base quantity (all moduli S and T, averages, velocities, pressures, volumes) of end-to-end runs is validated record by record by TLC: the value at each requested pressure lies between the volume-base values at the grid volumes whose pressures bracket it (curvature allowance), the pressure field converts to the requested pressures, V(T,P) brackets and decreases. The range check is replayed in the three classes below / between / above the temperature-dependent reach.",
-            "Trusted: QHA's P(T,V) (dependency); interpolation allowance 2 x neighbouring second differences; scaled integers (1e-4 GPa, 1e-7 relative).",
+            "Each pressure-base quantity (all moduli S and T, averages, velocities, pressures, volumes) of end-to-end runs is validated record by record by TLC: the value at each requested pressure lies between the volume-base values at the grid volumes whose pressures bracket it (curvature allowance), the pressure field converts to the requested pressures, V(T,P) brackets and decreases; the adiabatic-isothermal gap is validated as a field of its own; pairs of calculations in one process share a pressure grid. The range check is replayed in the three classes below / between / above the temperature-dependent reach, half of the representatives within 0.5 % of a class boundary.",
+            "Trusted: QHA's P(T,V) (dependency); interpolation allowance 2 x neighbouring second differences for fields, largest neighbouring third difference of the grid volumes for V(T,P); scaled integers (1e-4 GPa, 1e-7 relative).",
             "DESIGN.md section 4 C06"),
     "C07": ("model_checking",
             "TLC decides that the 6x6 formulas are the contractions of the full fourth-rank tensors (identities of linear forms, spec/Averages.tla, C07.tla); exported forms replayed on stiffness fields injected into CijVolumeBaseInterface; every (T,V) sample validated by Trace_Averages.tla",
